@@ -594,3 +594,59 @@ void h_insert_base(void)
 	__CPROVER_assert(g_rp_calls == 1 && g_cmp_calls == v_ins.depth, "[C16] one comparison per level, then one rebalancing walk");
 	CANARY();
 }
+
+/* ====================================================================
+ * iv_avl_tree_next / iv_avl_tree_prev / iv_avl_tree_min / iv_avl_tree_max on
+ * every binary tree shape of at most three levels (positions 0..6, any subset
+ * closed under "parent present"), not only balanced ones: the successor /
+ * predecessor of every node is its neighbour in the in-order sequence, NULL
+ * at the ends.  Bounded (three levels); seconds.
+ * ================================================================== */
+static int np_seq[8], np_n;
+static void np_inorder(int i)
+{
+	if (i > 6 || !verif_in.present[i])
+		return;
+	np_inorder(2 * i + 1);
+	np_seq[np_n++] = i;
+	np_inorder(2 * i + 2);
+}
+
+void h_next_prev(void)
+{
+	int i, k;
+	struct iv_avl_tree t;
+	struct iv_avl_node *r;
+
+	VERIF_IN_LOAD();
+	__CPROVER_assume(verif_in.present[0]);
+	for (i = 1; i < 7; i++)
+		__CPROVER_assume(IMPLIES(verif_in.present[i], verif_in.present[(i - 1) / 2]));
+	for (i = 0; i < 7; i++) {
+		int l = 2 * i + 1, rr = 2 * i + 2;
+
+		v_n[i].left = (l < 7 && verif_in.present[l]) ? &v_n[l] : NULL;
+		v_n[i].right = (rr < 7 && verif_in.present[rr]) ? &v_n[rr] : NULL;
+		v_n[i].parent = i ? &v_n[(i - 1) / 2] : NULL;
+		v_n[i].height = 1;	/* not looked at by the traversal functions */
+	}
+	t.root = &v_n[0];
+	t.compare = NULL;
+	np_n = 0;
+	np_inorder(0);
+	__CPROVER_assert(np_n >= 1 && np_n <= 7, "harness: in-order sequence built");
+
+	r = iv_avl_tree_min(&t);
+	__CPROVER_assert(r == &v_n[np_seq[0]], "[C16] iv_avl_tree_min is the first node in comparator order");
+	r = iv_avl_tree_max(&t);
+	__CPROVER_assert(r == &v_n[np_seq[np_n - 1]], "[C16] iv_avl_tree_max is the last node in comparator order");
+	for (k = 0; k < 7; k++) {
+		if (k >= np_n)
+			break;
+		r = iv_avl_tree_next(&v_n[np_seq[k]]);
+		__CPROVER_assert(r == (k + 1 < np_n ? &v_n[np_seq[k + 1]] : NULL), "[C16] iv_avl_tree_next is the in-order successor, NULL after the last node");
+		r = iv_avl_tree_prev(&v_n[np_seq[k]]);
+		__CPROVER_assert(r == (k > 0 ? &v_n[np_seq[k - 1]] : NULL), "[C16] iv_avl_tree_prev is the in-order predecessor, NULL before the first node");
+	}
+	CANARY();
+}
